@@ -422,7 +422,7 @@ theorem peWalkIn_some (rows : Array Row) (ranges : List Rng) (endA : Nat) : ∀ 
         · simp only [hq, if_true] at h
           injection h with h; injection h with h1 h2; subst h1; subst h2
           exact ⟨hr, Nat.le_refl _, hq, hlt, by intro k rk h1 h2; omega⟩
-        · simp only [hq, if_false] at h
+        · simp only [hq] at h
           have := ih (i + 1) j rj h
           refine ⟨this.1, by omega, this.2.2.1, this.2.2.2.1, ?_⟩
           intro k rk hik hkj hrk
@@ -707,7 +707,7 @@ theorem C04_line_to_addrs_counterexample : ¬ C04_line_to_addrs_complete_full :=
   subst hp
   revert hk; decide
 
-/-- a second witness, found by the correspondence run on std code (`core/src/fmt/mod.rs:820` in a stock binary): two functions whose
+/-- a witness found by the correspondence run on std code (`core/src/fmt/mod.rs:820` in a stock binary): two functions whose
 only row of line 35 is a prologue_end row with the SAME column and flags, adjacent in the file's row list. -/
 def cexPeUnit : CUnit := {
   ranges := #[⟨0x10, 0x20⟩],
@@ -719,17 +719,12 @@ def cexPeUnit : CUnit := {
   fnRanges := #[⟨0x10, 0x18, 100⟩, ⟨0x18, 0x20, 200⟩],
   fns := #[{ die := 100, name := some 0, ranges := [⟨0x10, 0x18⟩] }, { die := 200, name := some 1, ranges := [⟨0x18, 0x20⟩] }] }
 
-/-- **C04_line_to_addrs_counterexample_pe_lookahead.** Completeness also fails without any difference in column or flags: the
-look-ahead "prefer a prologue_end sibling" starts from a row that IS a prologue_end row, jumps to the next one and never comes
-back: `break file:35` yields only 0x18 (second function); the first function, whose row is identical, gets none. -/
-theorem C04_line_to_addrs_counterexample_pe_lookahead : ¬ C04_line_to_addrs_complete_full := by
-  intro h
-  have hres : findClosestPlace #[cexPeUnit] 7 35 = [(0, 1, cexPeUnit.rows[1])] := by decide
-  obtain ⟨p, hp, hk⟩ := h #[cexPeUnit] 7 35 0 0 cexPeUnit cexPeUnit.rows[0] 1 rfl (by decide) (by decide) (by decide) (by decide) (by decide) (by decide)
-  rw [hres] at hp
-  simp only [List.mem_singleton] at hp
-  subst hp
-  revert hk; decide
+/-- **C04_line_to_addrs_pe_lookahead_witness** (the repaired defect `line-breakpoint-skips-prologue-end-row-followed-by-another`).
+The look-ahead "prefer a prologue_end sibling" used to start from a row that IS a prologue_end row, jumped to the next one and
+never came back: `break file:35` yielded only 0x18 and the first function, whose row is identical, got none.  The starting row
+is now tested first: both functions get their place (kernel-checked evaluation of the model). -/
+theorem C04_line_to_addrs_pe_lookahead_witness :
+    findClosestPlace #[cexPeUnit] 7 35 = [(0, 0, cexPeUnit.rows[0]), (0, 1, cexPeUnit.rows[1])] := by decide
 
 /-! ## file line range → breakpoint-capable places (`find_places_in_line_range`) -/
 
